@@ -187,6 +187,7 @@ type wireMsg struct {
 	Opcode     int
 	Compressed bool
 	Payload    []byte // concatenated frame payloads (still compressed if Compressed)
+	Raw        []byte // for compressed messages: the compressed bytes as found on the wire (after unmasking)
 	Frames     int
 }
 
